@@ -127,6 +127,42 @@ def run(ctx, env):
         if not carried and ty not in allowed_ty:
             continue
         ok = ty in allowed_ty
+        if not ok and ty == "usize":
+            # an offset cursor into the caller's buffer: every in-loop definition is `S.len() - remaining.len()`
+            # (the position after the packet just parsed), every other definition the constant 0
+            vals = []
+            for d in defs:
+                if d[0] == "assign":
+                    vals.append(peel(an.simp(sl.rvalue(d[3], d[1])), widen=True))
+                elif d[0] == "call":
+                    vals.append(peel(an.simp(sl.call_expr(d[1], d[2])), widen=True))
+                else:
+                    vals.append(("?",))
+
+            def is_offset(v):
+                if const_eval(v) == {0}:
+                    return True
+                if v[0] == "tfield":
+                    v = peel(v[1], widen=True)          # (a - b, overflowed).0
+                a_, b_ = None, None
+                if v[0] == "call" and v[2] is not None and re.search(r"::(saturating_sub|wrapping_sub)$", v[2].npath) and len(v[3]) == 2:
+                    a_, b_ = v[3]
+                elif v[0] == "binop" and v[1].replace("WithOverflow", "") == "Sub":
+                    a_, b_ = v[2], v[3]
+                if a_ is None:
+                    return False
+                la, lb = peel(a_, widen=True), peel(b_, widen=True)
+                islen = lambda x: x[0] == "call" and x[2] is not None and x[2].npath.endswith("::len")
+                if not (islen(la) and islen(lb)):
+                    return False
+                r_ = peel(lb[3][0])
+                while r_[0] in ("ref", "deref"):
+                    r_ = peel(r_[1])
+                return r_[0] == "field" and r_[2] == "remaining" and peel(r_[1])[0] == "ok"
+            if vals and all(is_offset(v) for v in vals):
+                ok = True
+                ctx.ob("R11.3", body.path, "loop-carried:%s" % nm, True, "local `%s` : usize is an offset cursor into the caller's buffer (0, then buffer.len() - remaining.len() after each packet): it names the unparsed input, like the re-sliced remainder does (its use is checked by R11.4)" % nm, site=site(body.span))
+                continue
         ctx.ob("R11.3", body.path, "loop-carried:%s" % nm, ok, "local `%s` : %s is %s across iterations" % (nm, ty, "carried" if carried else "assigned"), site=site(body.span))
     ca = CacheAccess(prog, an)
     for (b, st, detail, why) in ca.violations:
